@@ -371,7 +371,7 @@ def viewAction {w : Nat} (st : St w) (r : String) (m : PMap w Val) (s : Spec.SMa
          "ok;" ++ fmtOpt fmtPV (match v.pfx m.root with
             | some p => Spec.lookup (regionEntries s reg) p
             | none => none))
-  | ["iter"] => (st, "ok;" ++ fmtList fmtPV (v.iter m.root), "ok;" ++ fmtList fmtPV (regionEntries s reg))
+  | ["iter"] | ["intoiter"] => (st, "ok;" ++ fmtList fmtPV (v.iter m.root), "ok;" ++ fmtList fmtPV (regionEntries s reg))
   | ["keys"] => (st, "ok;" ++ fmtList (fun e => fmtP e.1) (v.iter m.root), "ok;" ++ fmtList (fun e => fmtP e.1) (regionEntries s reg))
   | ["values"] => (st, "ok;" ++ fmtList (fun e => toString e.2) (v.iter m.root), "ok;" ++ fmtList (fun e => toString e.2) (regionEntries s reg))
   | ["walk"] => (st, "ok;" ++ walkStr m.root (w + 2) v, "ok;*")
